@@ -36,8 +36,8 @@ static void set_legacy(int mode)
 {
     /* 0 unset, 1 "", 2 "0", 3 "1", 4 "yes" */
     static const char *vals[] = { NULL, "", "0", "1", "yes" };
-    if (mode == 0) unsetenv("LIBERASURECODE_WRITE_LEGACY_CRC");
-    else setenv("LIBERASURECODE_WRITE_LEGACY_CRC", vals[mode], 1);
+    (void)vals;
+    lec_env_legacy(mode);
     LEC_MODEL_LEGACY = mode >= 3;
 }
 static const char *legacy_name[] = { "unset", "empty", "0", "1", "yes" };
@@ -149,11 +149,16 @@ static void run_wire(void)
 static void check_sizes(const cfg_t *c, const char *ck, int desc, uint64_t len, int do_encode)
 {
     uint64_t A = (uint64_t)c->k * (uint64_t)ref_word_bytes(c->be);
+    /* the public aligned-size query goes by the backend's element size, which for the ISA-L adapters is one byte whatever
+     * word size the instance was created with; encode and the fragment-size query pad to the instance's word size */
+    int isal = c->be == EC_BACKEND_ISA_L_RS_VAND || c->be == EC_BACKEND_ISA_L_RS_CAUCHY;
+    uint64_t Apub = isal ? (uint64_t)c->k : A;
     int fs = liberasurecode_get_fragment_size(desc, (int)len);
     int al = liberasurecode_get_aligned_data_size(desc, len);
+    uint64_t want_pub = ((len + Apub - 1) / Apub) * Apub;
     uint64_t want_al = ((len + A - 1) / A) * A;
     mon_count("evaluations", 2);
-    if ((uint64_t)al != want_al) mon_viol("C08", "aligned-size", "get_aligned_data_size(%llu)=%d, smallest multiple of %llu >= len is %llu", (unsigned long long)len, al, (unsigned long long)A, (unsigned long long)want_al);
+    if ((uint64_t)al != want_pub) mon_viol("C08", "aligned-size", "get_aligned_data_size(%llu)=%d, smallest multiple of %llu >= len is %llu", (unsigned long long)len, al, (unsigned long long)Apub, (unsigned long long)want_pub);
     if ((uint64_t)fs != want_al / (uint64_t)c->k) mon_viol("C08", "fragment-size-model", "get_fragment_size(%llu)=%d, model payload %llu", (unsigned long long)len, fs, (unsigned long long)(want_al / (uint64_t)c->k));
     if (do_encode) {
         uint8_t *d = calloc(1, len ? len : 1);
@@ -190,7 +195,9 @@ static void run_sizes(void)
         if (mon_case("%s|minimum-encode-size", ck)) {
             int mn = liberasurecode_get_minimum_encode_size(desc);
             mon_count("evaluations", 1);
-            if ((uint64_t)mn != A) mon_viol("C08", "minimum-encode-size", "get_minimum_encode_size=%d, aligned(1)=%llu", mn, (unsigned long long)A);
+            int al1 = liberasurecode_get_aligned_data_size(desc, 1);
+            uint64_t Apub = (c.be == EC_BACKEND_ISA_L_RS_VAND || c.be == EC_BACKEND_ISA_L_RS_CAUCHY) ? (uint64_t)c.k : A;
+            if (mn != al1 || (uint64_t)mn != Apub) mon_viol("C08", "minimum-encode-size", "get_minimum_encode_size=%d, get_aligned_data_size(1)=%d, model %llu", mn, al1, (unsigned long long)Apub);
             mon_end();
         }
         /* dense block 0..4A+1 */
@@ -389,6 +396,29 @@ static void run_header(void)
                         eval_mutant(&mc, h, what);
                         mon_distinct("nontrivial", mon_hash(h, 80, mon_hash_str(x.ck, 3)));
                     }
+                    mon_end();
+                }
+                /* (e) structured forgeries (deterministic): stored checksums that are "nearly right" in ways a sloppy comparison
+                 * accepts, partially byte-swapped headers, writer versions at the edges of the 1.2.0 gate with a stale seal */
+                if (mon_case("%s|frag=%d|structured-forgeries", x.ck, fidx)) {
+                    uint32_t cs = crc_std(orig, 59), cl = crc_legacy(orig, 59);
+                    struct { const char *n; uint32_t v; } st[] = {
+                        { "stored crc byte-reversed (std), native magic", ref_bswap32(cs) }, { "stored crc byte-reversed (legacy), native magic", ref_bswap32(cl) },
+                        { "stored crc = ~std", ~cs }, { "stored crc low half only", cs & 0xffffu }, { "stored crc high half only", cs & 0xffff0000u },
+                        { "stored crc rotated by 8", (cs << 8) | (cs >> 24) }, { "stored crc = 0", 0 }, { "stored crc = ffffffff", 0xffffffffu },
+                        { "stored crc = crc of 58 bytes", crc_std(orig, 58) }, { "stored crc = crc of 60 bytes", crc_std(orig, 60) }, { "stored crc = std ^ legacy ^ std... halves mixed", (cs & 0xffffu) | (cl & 0xffff0000u) },
+                    };
+                    for (size_t q = 0; q < sizeof st / sizeof st[0]; q++) { memcpy(h, orig, 80); ref_put32(h + REF_OFF_MCRC, st[q].v); eval_mutant(&mc, h, st[q].n); mon_distinct("nontrivial", mon_hash(h, 80, mon_hash_str(x.ck, 4))); }
+                    /* opposite-endian header whose checksum word alone is in HOST order, and the reverse */
+                    { ref_hdr_twin(orig, h, 0); uint32_t ct = crc_std(h, 59); ref_put32(h + REF_OFF_MCRC, ct); eval_mutant(&mc, h, "opposite-endian header, checksum word left in host order");
+                      memcpy(h, orig, 80); ref_put32(h + REF_OFF_MAGIC, ref_bswap32(REF_MAGIC)); ref_put32(h + REF_OFF_LIBVER, ref_bswap32(ref_get32(orig + REF_OFF_LIBVER)));
+                      ref_put32(h + REF_OFF_MCRC, crc_std(h, 59)); eval_mutant(&mc, h, "magic and version byte-swapped, checksum in host order, other fields native"); }
+                    static const uint32_t gate[] = { 0x010200, 0x0101ff, 0x010201, 0x80010604u, 0xffffffffu, 0x80000000u, 0x7fffffffu, 0x01020000, 0x00010200 };
+                    for (size_t q = 0; q < sizeof gate / sizeof gate[0]; q++) for (int stale = 0; stale < 2; stale++) {
+                        memcpy(h, orig, 80); ref_put32(h + REF_OFF_LIBVER, gate[q]); ref_hdr_reseal(h, 0); if (stale) h[REF_OFF_MCRC + (q & 3)] ^= 0x41;
+                        snprintf(what, sizeof what, "writer version %08x, %s seal", gate[q], stale ? "stale" : "good"); eval_mutant(&mc, h, what);
+                    }
+                    mon_count("structured_forgery_blocks", 1);
                     mon_end();
                 }
                 /* (d) padding-only edits */
@@ -747,6 +777,9 @@ static void run_validate(void)
                 for (int f = 0; f < nJ; f += (nJ > 8 && !MO.thorough ? 5 : 1)) {
                     if (!mon_case("I=%s|J=%s|len=%llu|frag=%d", X[I].ck, X[J].ck, (unsigned long long)s->len, f)) continue;
                     rng_t r; rng_case(&r);
+                    /* the reader's legacy-CRC WRITE switch must not influence what it accepts: a third of the cases validate with it set */
+                    lec_env_legacy(emitted % 3 == 1 ? 3 : (emitted % 3 == 2 ? 4 : 0));
+                    mon_count(emitted % 3 ? "cases_validated_with_write_legacy_switch_set" : "cases_validated_with_switch_unset", 1);
                     uint8_t *g = malloc(s->flen);
                     int nI = in.k + in.m;
                     /* edits: -1 pristine; idx values; backend ids; versions; mismatch flag; payload flip; stale seal; twin */
@@ -829,6 +862,7 @@ static void run_validate(void)
                     }
                     if (emitted % 211 == 0) mon_sample("{\"instance\":\"%s\",\"fragment_from\":\"%s\",\"fragment\":%d,\"edits\":%d}", X[I].ck, X[J].ck, f, nedits);
                     free(g);
+                    lec_env_legacy(0);
                     mon_end();
                     emitted++;
                 }
@@ -844,6 +878,8 @@ int main(int argc, char **argv)
     LEC_PROP = MO.prop;
     isal_ok = liberasurecode_backend_available(EC_BACKEND_ISA_L_RS_VAND);
     mon_count0("isal_reference_plugin_available", isal_ok);
+    lec_env_legacy(0);
+    if (MO.noise) noise_start();
     if (!strcmp(PROP, "C07")) run_wire();
     else if (!strcmp(PROP, "C08")) run_sizes();
     else if (!strcmp(PROP, "C09")) run_header();
@@ -851,6 +887,7 @@ int main(int argc, char **argv)
     else if (!strcmp(PROP, "C11")) run_endian();
     else if (!strcmp(PROP, "C12")) run_validate();
     else { mon_logf("HARNESS unknown property %s", PROP); mon_finish(); return 2; }
+    noise_stop();
     mon_finish();
     return 0;
 }
